@@ -196,6 +196,55 @@ def vmapEnv (names : List Bytes) (mapName : String) (key : Bytes) : Option Actio
 
 def mkEnv (dp : Dataplane) (names : List Bytes) : Env := { dp := dp, vmap := vmapEnv names }
 
+/-! ### `felix/nftables/maps.go`: desired / dataplane tracking of one verdict map -/
+
+/-- one verdict map element: interface name → chain of the `goto` verdict -/
+abbrev Member := Bytes × String
+
+/-- `Maps` restricted to one map: the members we were told about (`Desired()`) and the members
+we believe are in the kernel (`Dataplane()`), both as sets. -/
+structure MapState where
+  desired : List Member := []
+  dataplane : List Member := []
+  deriving Repr, Inhabited
+
+/-- `AddOrReplaceMap`: the desired member set becomes exactly the new one (members that are no
+longer wanted are deleted from `Desired()`, new ones added) — also when the new set is empty. -/
+def MapState.addOrReplace (s : MapState) (members : List Member) : MapState :=
+  { s with desired := members }
+
+/-- `MapUpdates().MembersToDel`: in the dataplane but not desired -/
+def MapState.pendingDeletions (s : MapState) : List Member := s.dataplane.filter (fun m => !s.desired.contains m)
+/-- `MapUpdates().MembersToAdd`: desired but not in the dataplane -/
+def MapState.pendingAdds (s : MapState) : List Member := s.desired.filter (fun m => !s.dataplane.contains m)
+
+/-- one successful `Apply()`: the transaction deletes `MembersToDel`, adds `MembersToAdd`, and
+`FinishMapUpdates` records both in `Dataplane()` -/
+def MapState.apply (s : MapState) : MapState :=
+  { s with dataplane := s.dataplane.filter (fun m => !s.pendingDeletions.contains m) ++ s.pendingAdds }
+
+/-- the kernel's verdict for a key -/
+def MapState.verdict (s : MapState) (key : Bytes) : Option Action :=
+  (s.dataplane.find? fun kv => kv.1 == key).map fun kv => .goto kv.2
+
+/-- both workload dispatch maps -/
+structure MapsState where
+  fromWl : MapState := {}
+  toWl : MapState := {}
+  deriving Repr, Inhabited
+
+/-- what the endpoint manager does for a new set of workload interfaces, followed by `Apply()` -/
+def MapsState.setWorkloads (s : MapsState) (names : List Bytes) : MapsState :=
+  let (f, t) := dispatchMappings names
+  { fromWl := (s.fromWl.addOrReplace f).apply, toWl := (s.toWl.addOrReplace t).apply }
+
+/-- the lookup environment given by the kernel state of the maps -/
+def MapsState.env (s : MapsState) : Env :=
+  { dp := .nft
+    vmap := fun mapName key =>
+      if mapName = chainFromWl then s.fromWl.verdict key
+      else if mapName = chainToWl then s.toWl.verdict key else none }
+
 /-- Decidable side condition of the dispatch theorems: the rendered chain names are pairwise
 distinct and none of the external targets (endpoint chains) is the name of a dispatch chain.
 (Evaluated by the driver on every generated case and compared with the same check on the real
